@@ -660,4 +660,398 @@ theorem tokInv_rotate {a : AuthSt} {n : Int} (h : TokInv a n) (i : Nat) (id : In
                     exact (h.pm _ _).mpr ⟨x, hx, hxp⟩
     · simp only [hvp, Bool.not_false, if_true]; exact h
 
+/-! ### DeleteToken -/
+
+theorem memCascadeByToken_tok (x : AuthSt) (m : Int) :
+    (memCascadeByToken x m).tokens = x.tokens ∧ (memCascadeByToken x m).byName = x.byName ∧
+    (memCascadeByToken x m).byPrefix = x.byPrefix := by
+  unfold memCascadeByToken
+  cases x.members.get? m <;> exact ⟨rfl, rfl, rfl⟩
+
+theorem fold_memCascadeByToken_tok (ms : List Int) (x : AuthSt) :
+    (ms.foldl memCascadeByToken x).tokens = x.tokens ∧ (ms.foldl memCascadeByToken x).byName = x.byName ∧
+    (ms.foldl memCascadeByToken x).byPrefix = x.byPrefix := by
+  induction ms generalizing x with
+  | nil => exact ⟨rfl, rfl, rfl⟩
+  | cons m t ih =>
+    simp only [List.foldl_cons]
+    have a := ih (memCascadeByToken x m)
+    have b := memCascadeByToken_tok x m
+    exact ⟨a.1.trans b.1, a.2.1.trans b.2.1, a.2.2.trans b.2.2⟩
+
+theorem tokInv_deleteCore {a : AuthSt} {n : Int} (h : TokInv a n) (id : Int) (e : TokenEntry)
+    (hg : a.tokens.get? id = some e) :
+    TokInv { a with tokens := a.tokens.del id, byPrefix := prefixDel a.byPrefix e.pfx id,
+                    byName := a.byName.del e.name } n := by
+  have hsub : ∀ k x, (a.tokens.del id).get? k = some x → a.tokens.get? k = some x ∧ k ≠ id := by
+    intro k x hk
+    rw [get?_del] at hk
+    by_cases hki : k = id
+    · simp [hki] at hk
+    · simp only [hki, if_false] at hk; exact ⟨hk, hki⟩
+  refine ⟨sorted_del h.st, sorted_del h.sn, sorted_prefixDel h.sp _ _, ?_, ?_, ?_, ?_,
+    noEmpty_prefixDel h.pne _ _, ?_, ?_⟩
+  · intro k x hk; exact h.key k x (hsub k x hk).1
+  · intro k x hk; exact h.valid k x (hsub k x hk).1
+  · intro nm k hnm
+    simp only [get?_del] at hnm
+    by_cases hn : nm = e.name
+    · simp [hn] at hnm
+    · simp only [hn, if_false] at hnm
+      obtain ⟨x, hx, hxn⟩ := h.n1 nm k hnm
+      have hki : k ≠ id := by
+        intro e2; rw [e2, hg] at hx; cases hx; exact hn hxn.symm
+      exact ⟨x, by simp [get?_del, hki, hx], hxn⟩
+  · intro k x hk
+    have ⟨h1, h2⟩ := hsub k x hk
+    have hx := h.n2 k x h1
+    have hne : x.name ≠ e.name := by
+      intro e2
+      have := h.n2 id e hg
+      rw [e2, this] at hx
+      exact h2 (Option.some.inj hx).symm
+    simp only [get?_del, hne, if_false]; exact hx
+  · intro p
+    rw [pl_prefixDel]; split
+    · exact ssorted_filter _ (h.pso _)
+    · exact h.pso _
+  · intro p k
+    rw [pl_prefixDel]
+    simp only [get?_del]
+    by_cases hp : p = e.pfx
+    · simp only [hp, if_true, List.mem_filter, bne_iff_ne, ne_eq]
+      constructor
+      · rintro ⟨hm, hki⟩
+        obtain ⟨x, hx, hxp⟩ := (h.pm _ _).mp hm
+        exact ⟨x, by simp [hki, hx], hxp⟩
+      · rintro ⟨x, hx, hxp⟩
+        by_cases hki : k = id
+        · simp [hki] at hx
+        · simp only [hki, if_false] at hx
+          exact ⟨(h.pm _ _).mpr ⟨x, hx, hxp⟩, hki⟩
+    · simp only [hp, if_false]
+      constructor
+      · intro hm
+        obtain ⟨x, hx, hxp⟩ := (h.pm _ _).mp hm
+        have hki : k ≠ id := by
+          intro e2; rw [e2, hg] at hx; cases hx; exact hp hxp.symm
+        exact ⟨x, by simp [hki, hx], hxp⟩
+      · rintro ⟨x, hx, hxp⟩
+        by_cases hki : k = id
+        · simp [hki] at hx
+        · simp only [hki, if_false] at hx
+          exact (h.pm _ _).mpr ⟨x, hx, hxp⟩
+
+theorem tokInv_delete {a : AuthSt} {n : Int} (h : TokInv a n) (id : Int) :
+    TokInv (applyDeleteToken a id).1 n := by
+  unfold applyDeleteToken
+  split
+  · exact h
+  · cases hg : a.tokens.get? id with
+    | none => exact h
+    | some e =>
+      simp only
+      have core := tokInv_deleteCore h id e hg
+      cases hm : a.memByToken.get? id with
+      | none => exact core
+      | some set =>
+        simp only
+        have f := fold_memCascadeByToken_tok (keys set)
+          { a with tokens := a.tokens.del id, byPrefix := prefixDel a.byPrefix e.pfx id,
+                   byName := a.byName.del e.name }
+        exact core.congr f.1 f.2.1 f.2.2
+
+/-! ### commands that do not touch the token part -/
+
+theorem cascadeRoleAndDelete_tok (x : AuthSt) (r : Int) :
+    (cascadeRoleAndDelete x r).tokens = x.tokens ∧ (cascadeRoleAndDelete x r).byName = x.byName ∧
+    (cascadeRoleAndDelete x r).byPrefix = x.byPrefix := ⟨rfl, rfl, rfl⟩
+
+theorem fold_tok {α : Type} (f : AuthSt → α → AuthSt)
+    (hf : ∀ x r, (f x r).tokens = x.tokens ∧ (f x r).byName = x.byName ∧ (f x r).byPrefix = x.byPrefix)
+    (l : List α) (x : AuthSt) :
+    (l.foldl f x).tokens = x.tokens ∧ (l.foldl f x).byName = x.byName ∧ (l.foldl f x).byPrefix = x.byPrefix := by
+  induction l generalizing x with
+  | nil => exact ⟨rfl, rfl, rfl⟩
+  | cons m t ih =>
+    simp only [List.foldl_cons]
+    have a := ih (f x m)
+    have b := hf x m
+    exact ⟨a.1.trans b.1, a.2.1.trans b.2.1, a.2.2.trans b.2.2⟩
+
+theorem memCascadeByTeam_tok (x : AuthSt) (m : Int) :
+    (memCascadeByTeam x m).tokens = x.tokens ∧ (memCascadeByTeam x m).byName = x.byName ∧
+    (memCascadeByTeam x m).byPrefix = x.byPrefix := by
+  unfold memCascadeByTeam
+  cases x.members.get? m <;> exact ⟨rfl, rfl, rfl⟩
+
+theorem cascadeTeam_tok (x : AuthSt) (t : Int) :
+    (cascadeTeam x t).tokens = x.tokens ∧ (cascadeTeam x t).byName = x.byName ∧
+    (cascadeTeam x t).byPrefix = x.byPrefix := by
+  unfold cascadeTeam
+  simp only
+  have a := fold_tok cascadeRoleAndDelete cascadeRoleAndDelete_tok (keys (x.rolesByTeam.inner t)) x
+  generalize (keys (x.rolesByTeam.inner t)).foldl cascadeRoleAndDelete x = b1 at a
+  have b := fold_tok memCascadeByTeam memCascadeByTeam_tok
+    (keys (({ b1 with rolesByTeam := b1.rolesByTeam.del t } : AuthSt).memByTeam.inner t))
+    { b1 with rolesByTeam := b1.rolesByTeam.del t }
+  exact ⟨b.1.trans a.1, b.2.1.trans a.2.1, b.2.2.trans a.2.2⟩
+
+theorem cascadeTeamAndDelete_tok (x : AuthSt) (t : Int) :
+    (cascadeTeamAndDelete x t).tokens = x.tokens ∧ (cascadeTeamAndDelete x t).byName = x.byName ∧
+    (cascadeTeamAndDelete x t).byPrefix = x.byPrefix := cascadeTeam_tok x t
+
+theorem cascadeOrg_tok (x : AuthSt) (o : Int) :
+    (cascadeOrg x o).tokens = x.tokens ∧ (cascadeOrg x o).byName = x.byName ∧
+    (cascadeOrg x o).byPrefix = x.byPrefix :=
+  fold_tok cascadeTeamAndDelete cascadeTeamAndDelete_tok _ x
+
+/-- every command keeps the token invariant when applied at a log index ≥ the bound -/
+theorem tokInv_step {a : AuthSt} {n : Int} (h : TokInv a n) (i : Nat) (hi : n ≤ (i : Int)) (c : Cmd) :
+    TokInv (auStep a i c) ((i : Int) + 1) := by
+  have hm : TokInv a ((i : Int) + 1) := h.mono (by omega)
+  cases c <;> try exact hm
+  · exact tokInv_create h i hi _
+  · exact (tokInv_update h i _ _ _ _ _ _).mono (by omega)
+  · exact (tokInv_revoke h i _).mono (by omega)
+  · exact (tokInv_delete h _).mono (by omega)
+  · exact (tokInv_rotate h i _ _ _).mono (by omega)
+  · -- createOrg
+    apply hm.congr <;> (simp only [auStep]; unfold applyCreateOrg; repeat' split) <;> rfl
+  · apply hm.congr <;> (simp only [auStep]; unfold applyUpdateOrg; repeat' split) <;> rfl
+  · -- deleteOrg
+    rename_i id
+    simp only [auStep]
+    unfold applyDeleteOrg
+    split
+    · exact hm
+    · cases a.orgs.get? id with
+      | none => exact hm
+      | some ex =>
+        have f := cascadeOrg_tok a id
+        exact hm.congr f.1 f.2.1 f.2.2
+  · apply hm.congr <;> (simp only [auStep]; unfold applyCreateTeam; repeat' split) <;> rfl
+  · apply hm.congr <;> (simp only [auStep]; unfold applyUpdateTeam; repeat' split) <;> rfl
+  · rename_i id
+    simp only [auStep]
+    unfold applyDeleteTeam
+    split
+    · exact hm
+    · cases a.teams.get? id with
+      | none => exact hm
+      | some ex =>
+        have f := cascadeTeam_tok a id
+        exact hm.congr f.1 f.2.1 f.2.2
+  · apply hm.congr <;> (simp only [auStep]; unfold applyCreateRole; repeat' split) <;> rfl
+  · apply hm.congr <;> (simp only [auStep]; unfold applyUpdateRole; repeat' split) <;> rfl
+  · rename_i id
+    simp only [auStep]
+    unfold applyDeleteRole
+    split
+    · exact hm
+    · cases a.roles.get? id with
+      | none => exact hm
+      | some ex => exact hm.congr rfl rfl rfl
+  · apply hm.congr <;> (simp only [auStep]; unfold applyCreateMPerm; repeat' split) <;> rfl
+  · apply hm.congr <;> (simp only [auStep]; unfold applyDeleteMPerm; repeat' split) <;> rfl
+  · apply hm.congr <;> (simp only [auStep]; unfold applyAddMember; repeat' split) <;> rfl
+  · apply hm.congr <;> (simp only [auStep]; unfold applyRemoveMember; repeat' split) <;> rfl
+
+/-! ### restore is the identity on the token part -/
+
+theorem restoreTokens_id {a : AuthSt} {n : Int} (h : TokInv a n) : restoreTokens a.tokens = a.tokens := by
+  unfold restoreTokens
+  apply List.filter_eq_self.mpr
+  intro x hx
+  obtain ⟨k, e⟩ := x
+  exact h.valid k e (mem_get?_of_sorted h.st hx)
+
+/-- keys of a sorted list are pairwise distinct -/
+theorem sorted_keys_distinct {V : Type} {l : SMap Int V} (h : Sorted l) :
+    l.Pairwise (fun p q => p.1 ≠ q.1) := by
+  apply List.Pairwise.imp _ h
+  intro p q hlt he
+  rw [he, LOrd.irrefl] at hlt
+  exact absurd hlt (by simp)
+
+def nameStep (acc : SMap String Int) (p : Int × TokenEntry) : SMap String Int := acc.ins p.2.name p.1
+
+theorem foldl_nameStep_keep (l : List (Int × TokenEntry)) (acc : SMap String Int) (nm : String)
+    (hno : ∀ p ∈ l, p.2.name ≠ nm) : (l.foldl nameStep acc).get? nm = acc.get? nm := by
+  induction l generalizing acc with
+  | nil => rfl
+  | cons q t ih =>
+    simp only [List.foldl_cons]
+    rw [ih _ (fun p hp => hno p (List.mem_cons_of_mem _ hp))]
+    unfold nameStep
+    rw [get?_ins, if_neg (fun e => hno q List.mem_cons_self e.symm)]
+
+theorem foldl_nameStep_mem (l : List (Int × TokenEntry)) (acc : SMap String Int)
+    (hd : l.Pairwise (fun p q => q.2.name ≠ p.2.name)) (p : Int × TokenEntry) (hp : p ∈ l) :
+    (l.foldl nameStep acc).get? p.2.name = some p.1 := by
+  induction l generalizing acc with
+  | nil => simp at hp
+  | cons q t ih =>
+    have ⟨hq, ht⟩ := List.pairwise_cons.mp hd
+    simp only [List.foldl_cons]
+    rcases List.mem_cons.mp hp with hp | hp
+    · subst hp
+      rw [foldl_nameStep_keep _ _ _ (fun x hx => hq x hx)]
+      unfold nameStep; rw [get?_ins_self]
+    · exact ih _ ht hp
+
+theorem sorted_foldl_nameStep (l : List (Int × TokenEntry)) (acc : SMap String Int) (h : Sorted acc) :
+    Sorted (l.foldl nameStep acc) := by
+  induction l generalizing acc with
+  | nil => exact h
+  | cons q t ih => exact ih _ (sorted_ins h)
+
+theorem names_distinct {a : AuthSt} {n : Int} (h : TokInv a n) :
+    a.tokens.Pairwise (fun p q => q.2.name ≠ p.2.name) := by
+  have hk := sorted_keys_distinct h.st
+  have : ∀ p ∈ a.tokens, ∀ q ∈ a.tokens, p.1 ≠ q.1 → q.2.name ≠ p.2.name := by
+    intro p hp q hq hne he
+    have h1 := h.n2 p.1 p.2 (mem_get?_of_sorted h.st hp)
+    have h2 := h.n2 q.1 q.2 (mem_get?_of_sorted h.st hq)
+    rw [he, h1] at h2
+    exact hne (Option.some.inj h2)
+  exact List.Pairwise.imp_of_mem (fun hp hq hne => this _ hp _ hq hne) hk
+
+theorem rebuildByName_id {a : AuthSt} {n : Int} (h : TokInv a n) : rebuildByName a.tokens = a.byName := by
+  apply ext (sorted_foldl_nameStep _ _ sorted_nil) h.sn
+  intro nm
+  show (a.tokens.foldl nameStep []).get? nm = _
+  cases hb : a.byName.get? nm with
+  | some id =>
+    obtain ⟨e, he, hen⟩ := h.n1 nm id hb
+    have := foldl_nameStep_mem a.tokens [] (names_distinct h) (id, e) (get?_some_mem he)
+    simp only at this
+    rw [hen] at this; exact this
+  | none =>
+    rw [foldl_nameStep_keep]
+    · rfl
+    · intro p hp he
+      have := h.n2 p.1 p.2 (mem_get?_of_sorted h.st hp)
+      rw [he, hb] at this; exact absurd this (by simp)
+
+def pfxStep (acc : SMap String (List Int)) (p : Int × TokenEntry) : SMap String (List Int) :=
+  prefixAdd acc p.2.pfx p.1
+
+theorem foldl_pfxStep_spec (l : List (Int × TokenEntry)) (acc : SMap String (List Int))
+    (hs : Sorted acc) (hne : NoEmptySlice acc) (hso : ∀ p, SSorted (pl acc p))
+    (hd : l.Pairwise (fun p q => p.1 ≠ q.1))
+    (hfresh : ∀ p x, x ∈ pl acc p → ∀ q ∈ l, q.1 ≠ x) :
+    Sorted (l.foldl pfxStep acc) ∧ NoEmptySlice (l.foldl pfxStep acc) ∧
+    (∀ p, SSorted (pl (l.foldl pfxStep acc) p)) ∧
+    (∀ p x, x ∈ pl (l.foldl pfxStep acc) p ↔ (x ∈ pl acc p ∨ ∃ e, (x, e) ∈ l ∧ e.pfx = p)) := by
+  induction l generalizing acc with
+  | nil => exact ⟨hs, hne, hso, fun p x => by simp⟩
+  | cons q t ih =>
+    have ⟨hq, ht⟩ := List.pairwise_cons.mp hd
+    simp only [List.foldl_cons]
+    have hmem : ∀ p x, x ∈ pl (pfxStep acc q) p ↔ (x ∈ pl acc p ∨ (x = q.1 ∧ p = q.2.pfx)) := by
+      intro p x
+      unfold pfxStep
+      rw [pl_prefixAdd]
+      by_cases hp : p = q.2.pfx
+      · rw [if_pos hp, mem_msIns, hp]
+        constructor
+        · rintro (h1 | h1)
+          · exact Or.inr ⟨h1, rfl⟩
+          · exact Or.inl h1
+        · rintro (h1 | ⟨h1, _⟩)
+          · exact Or.inr h1
+          · exact Or.inl h1
+      · rw [if_neg hp]
+        constructor
+        · intro h1; exact Or.inl h1
+        · rintro (h1 | ⟨_, h1⟩)
+          · exact h1
+          · exact absurd h1 hp
+    have step := ih (pfxStep acc q) (sorted_prefixAdd hs _ _) (noEmpty_prefixAdd hne _ _)
+      (by
+        intro p
+        unfold pfxStep
+        rw [pl_prefixAdd]
+        by_cases hp : p = q.2.pfx
+        · simp only [hp, if_true]
+          apply ssorted_msIns (hso _)
+          intro hm
+          exact hfresh _ _ hm q List.mem_cons_self rfl
+        · simp only [hp, if_false]; exact hso p)
+      ht
+      (by
+        intro p x hx r hr
+        rcases (hmem p x).mp hx with h1 | ⟨h1, _⟩
+        · exact hfresh p x h1 r (List.mem_cons_of_mem _ hr)
+        · rw [h1]; exact fun e => hq r hr e.symm)
+    obtain ⟨s1, s2, s3, s4⟩ := step
+    refine ⟨s1, s2, s3, ?_⟩
+    intro p x
+    rw [s4 p x, hmem p x]
+    constructor
+    · rintro ((h1 | ⟨h1, h2⟩) | ⟨e, he, hep⟩)
+      · exact Or.inl h1
+      · exact Or.inr ⟨q.2, by rw [h1]; exact List.mem_cons_self, h2.symm⟩
+      · exact Or.inr ⟨e, List.mem_cons_of_mem _ he, hep⟩
+    · rintro (h1 | ⟨e, he, hep⟩)
+      · exact Or.inl (Or.inl h1)
+      · rcases List.mem_cons.mp he with he | he
+        · left; right
+          rw [← he]; exact ⟨rfl, hep.symm⟩
+        · exact Or.inr ⟨e, he, hep⟩
+
+theorem rebuildByPrefix_id {a : AuthSt} {n : Int} (h : TokInv a n) :
+    rebuildByPrefix a.tokens = a.byPrefix := by
+  have sp := foldl_pfxStep_spec a.tokens [] sorted_nil (fun p l hl => by simp at hl)
+    (fun p => by simp [pl, SSorted]) (sorted_keys_distinct h.st) (fun p x hx => by simp [pl] at hx)
+  obtain ⟨s1, s2, s3, s4⟩ := sp
+  apply byPrefix_ext s1 h.sp s2 h.pne s3 h.pso
+  intro p x
+  show x ∈ pl (a.tokens.foldl pfxStep []) p ↔ _
+  rw [s4 p x, h.pm p x]
+  constructor
+  · rintro (h1 | ⟨e, he, hep⟩)
+    · simp [pl] at h1
+    · exact ⟨e, mem_get?_of_sorted h.st he, hep⟩
+  · rintro ⟨e, he, hep⟩
+    exact Or.inr ⟨e, get?_some_mem he, hep⟩
+
+/-- `Restore` reproduces the token part of a state that satisfies the invariant -/
+theorem restoreAu_tok {s : State} {n : Int} (h : TokInv s.au n) :
+    (restoreAu (snapshot s)).tokens = s.au.tokens ∧ (restoreAu (snapshot s)).byName = s.au.byName ∧
+    (restoreAu (snapshot s)).byPrefix = s.au.byPrefix := by
+  have e : restoreTokens (snapshot s).tokens = s.au.tokens := restoreTokens_id h
+  refine ⟨e, ?_, ?_⟩
+  · show rebuildByName (restoreTokens (snapshot s).tokens) = _
+    rw [e]; exact rebuildByName_id h
+  · show rebuildByPrefix (restoreTokens (snapshot s).tokens) = _
+    rw [e]; exact rebuildByPrefix_id h
+
+/-- the bound after a history: one more than the last command index (or the initial bound) -/
+def nextIdx (lo : Nat) : List Ev → Nat
+  | [] => lo
+  | .cmd i _ :: es => nextIdx (i + 1) es
+  | .restore :: es => nextIdx lo es
+
+theorem tokInv_runEv (s : State) (lo : Nat) (evs : List Ev) (h : TokInv s.au (lo : Int))
+    (hinc : idxIncreasing lo evs = true) : TokInv (runEv s evs).au (nextIdx lo evs : Nat) := by
+  induction evs generalizing s lo with
+  | nil => exact h
+  | cons e es ih =>
+    cases e with
+    | cmd i c =>
+      simp only [idxIncreasing, Bool.and_eq_true, decide_eq_true_eq] at hinc
+      simp only [runEv, stepEv, nextIdx]
+      apply ih _ _ _ hinc.2
+      rw [apply_au]
+      have := tokInv_step h i (by omega) c
+      simpa using this
+    | restore =>
+      simp only [idxIncreasing] at hinc
+      simp only [runEv, stepEv, nextIdx]
+      apply ih _ _ _ hinc
+      have f := restoreAu_tok h
+      exact h.congr f.1 f.2.1 f.2.2
+
 end Arc.C22
